@@ -10,6 +10,7 @@ import (
 	"go.minekube.com/common/minecraft/component/codec"
 	"go.minekube.com/common/minecraft/component/codec/legacy"
 	"go.minekube.com/common/minecraft/key"
+	"go.minekube.com/gate/pkg/command"
 	"go.minekube.com/gate/pkg/edition/java/proto/packet/plugin"
 	"go.minekube.com/gate/pkg/edition/java/proto/util"
 	"go.minekube.com/gate/pkg/edition/java/proto/version"
@@ -50,7 +51,12 @@ type (
 	}
 	// ServerConnectionProvider provides the currently connected server connection for a player.
 	ServerConnectionProvider interface {
+		// ConnectedServer returns the server connection of the responder's own player,
+		// or nil if that player is not connected to a server.
 		ConnectedServer() ServerConnection
+		// ConnectedServerOf returns the server connection of any online player,
+		// or nil if that player is not connected to a server.
+		ConnectedServerOf(Player) ServerConnection
 	}
 	// ServerConnection represents a server connection for a player.
 	ServerConnection interface {
@@ -64,6 +70,7 @@ type (
 		RemoteAddr() net.Addr
 		Disconnect(reason component.Component)
 		Protocol() proto.Protocol
+		SendMessage(msg component.Component, opts ...command.MessageOption) error
 	}
 	Server interface {
 		Name() string
@@ -185,12 +192,13 @@ func (r *bungeeCordMessageResponder) prepareForwardMessage(in io.Reader) (forwar
 	return forwarded.Bytes()
 }
 
+// sendServerResponse sends the response on the server connection of the responder's own player.
 func (r *bungeeCordMessageResponder) sendServerResponse(in []byte) {
-	if len(in) == 0 {
-		return
-	}
-	serverConn := r.ConnectedServer()
-	if serverConn == nil {
+	sendOnConnection(r.ConnectedServer(), in)
+}
+
+func sendOnConnection(serverConn ServerConnection, in []byte) {
+	if len(in) == 0 || serverConn == nil {
 		return
 	}
 	ch := Channel(serverConn.Protocol())
@@ -199,7 +207,8 @@ func (r *bungeeCordMessageResponder) sendServerResponse(in []byte) {
 
 func (r *bungeeCordMessageResponder) processForwardToPlayer(in io.Reader) {
 	r.readPlayer(in, func(player Player) {
-		r.sendServerResponse(r.prepareForwardMessage(in))
+		// goes to the server of the named player, over that player's connection
+		sendOnConnection(r.ConnectedServerOf(player), r.prepareForwardMessage(in))
 	})
 }
 
@@ -356,8 +365,8 @@ func (r *bungeeCordMessageResponder) processMessage0(in io.Reader, decoder codec
 	}
 	if target == "ALL" {
 		r.BroadcastMessage(comp)
-	} else {
-		r.Server(target).BroadcastMessage(comp)
+	} else if player := r.PlayerByName(target); player != nil {
+		_ = player.SendMessage(comp)
 	}
 }
 func (r *bungeeCordMessageResponder) processMessage(in io.Reader) {
@@ -436,7 +445,7 @@ func (r *bungeeCordMessageResponder) processKickRaw(in io.Reader) {
 
 func (r *bungeeCordMessageResponder) processGetPlayerServer(in io.Reader) {
 	r.readPlayer(in, func(player Player) {
-		s := r.ConnectedServer()
+		s := r.ConnectedServerOf(player)
 		if s == nil {
 			return
 		}
